@@ -337,6 +337,12 @@ class FieldMappingTransformationBase(DetectionItemTransformation):
                     # (e.g. neq modifier) must match none of them: not (a or b) = not a and not b
                     item_linking=ConditionAND if detection_item.negated else ConditionOR,
                 )
+                # dataclasses.replace() does not copy the processing item tracking set: the copies
+                # were processed by everything the replaced detection item was processed by.
+                for new_item in result.detection_items:
+                    new_item.applied_processing_items = (
+                        detection_item.applied_processing_items.copy()
+                    )
         if field_match or fieldref_match:  # field name was changed or field reference was mapped
             if self._pipeline is not None and mapping is not None:
                 self._pipeline.field_mappings.add_mapping(field, mapping)
